@@ -742,14 +742,13 @@ def judge(ctx, face, kind, obs, form=None):
         return dl > tol or dlon > tol
 
     if differs(ib, mb):
-        if cl["corner_on_ref_meridian"] or cl["ref_point_on_boundary"] or cl["corner_within_1e7_of_pole"]:
-            # a crossing of the reference arc exactly AT a corner / the arc's end points touching the
-            # boundary: whether it is counted is decided by end-point rounding inside point_within_gca,
-            # which the model idealises (C14's subject); the implementation's box has just been judged
-            # by the oracle, only the comparison is skipped
-            ctx.hit("degenerate:" + ("corner-on-ref-meridian" if cl["corner_on_ref_meridian"] else
-                                     "ref-point-on-boundary" if cl["ref_point_on_boundary"] else "corner-within-1e-7-of-pole")
-                    + ":model-not-compared")
+        if cl["corner_within_1e7_of_pole"]:
+            # a corner within 1e-7 rad of a pole: whether the pole counts as "on the boundary" is decided
+            # by ERROR_TOLERANCE-sized comparisons and end-point rounding inside point_within_gca, which
+            # the model idealises (C14's subject); the implementation's box has just been judged by the
+            # oracle, only the comparison is skipped.  (The winding test has no reference meridian: corners
+            # on longitude 0 and edges through (1,0,0) are compared like every other face.)
+            ctx.hit("degenerate:corner-within-1e-7-of-pole:model-not-compared")
         else:
             ctx.mismatch("C13/model-vs-impl", inp, impl, model)
 
